@@ -1,0 +1,41 @@
+//go:build verif
+
+package db
+
+// Contracts for gocv (contract-based deductive verification, /verif).
+
+// ---- the buffering batch: reads see its own writes over the wrapped batch (C15) --------------------
+// A buffered delete is a nil entry; it hides whatever the wrapped batch holds. A buffered value is
+// handed to the callback without consulting the wrapped batch; anything else is delegated.
+//@ extern func github.com/NethermindEth/juno/db.IndexedBatch.Get
+//@   logged as TxnGet
+//@ extern func github.com/NethermindEth/juno/db.IndexedBatch.Put
+//@   logged as TxnPut
+//@ extern func github.com/NethermindEth/juno/db.IndexedBatch.Delete
+//@   logged as TxnDelete
+//@ extern func slices.Clone
+//@   ensures len(result) == len(s) && ((result == nil) <==> (s == nil))
+//@ func (*BufferBatch).Get
+//@   props C15
+//@   arith int
+//@   requires b != nil && b.txn != nil
+//@   modifies *
+//@   assigns calls_TxnGet, arg_TxnGet_key, arg_TxnGet_cb
+//@   callsite cb@*: the_buffered_value: $0 == b.updates[string(key)]
+//@   ensures buffered_delete_hides: old(in(b.updates, string(key)) && b.updates[string(key)] == nil) ==> result == ErrKeyNotFound && calls(cb) == old(calls(cb)) && calls_TxnGet == old(calls_TxnGet)
+//@   ensures buffered_value_wins: old(in(b.updates, string(key)) && b.updates[string(key)] != nil) ==> calls(cb) == old(calls(cb)) + 1 && calls_TxnGet == old(calls_TxnGet) && result == ret(cb)
+//@   ensures otherwise_delegated: old(!in(b.updates, string(key))) ==> calls_TxnGet == old(calls_TxnGet) + 1 && calls(cb) == old(calls(cb))
+//@ func (*BufferBatch).Delete
+//@   props C15
+//@   arith int
+//@   requires b != nil && b.updates != nil
+//@   modifies maps
+//@   ensures result == nil && in(b.updates, string(key)) && b.updates[string(key)] == nil
+//@   ensures others_kept: forall k string :: k != string(key) ==> ((in(b.updates, k) <==> old(in(b.updates, k))) && b.updates[k] == old(b.updates[k]))
+//@ func (*BufferBatch).Put
+//@   props C15
+//@   arith int
+//@   requires b != nil && b.updates != nil
+//@   modifies maps
+//@   ensures result == nil && in(b.updates, string(key)) && len(b.updates[string(key)]) == len(val) && ((b.updates[string(key)] == nil) <==> (val == nil))
+//@   ensures others_kept: forall k string :: k != string(key) ==> ((in(b.updates, k) <==> old(in(b.updates, k))) && b.updates[k] == old(b.updates[k]))
